@@ -98,3 +98,351 @@ Proof.
     cbn [wf_local] in Hwf. apply andb_true_iff in Hwf as [Hwf _]. apply andb_true_iff in Hwf as [Hwf _].
     cbn [repr norm snd last eval unsnoc resolve]. rewrite Hres, Hwf. reflexivity.
 Qed.
+
+(* ---------------------------------------------------------------- lists *)
+Lemma eval_list_repr W E l :
+  Forall (fun x => eval W E (repr W x) = Some (norm W x)) l ->
+  eval_list W E (map (repr W) l) = Some (map (norm W) l).
+Proof.
+  induction 1 as [|x r Hx Hr IH]; [reflexivity|].
+  cbn [map eval_list]. cbn [eval_list] in IH. rewrite Hx, IH. reflexivity.
+Qed.
+
+Lemma Forall_subs_list W (Q : value -> Prop) l :
+  (forall u, In u (flat_map (subs W) l) -> Q u) ->
+  Forall (fun x => forall u, In u (subs W x) -> Q u) l.
+Proof.
+  intros H. apply Forall_forall. intros x Hx u Hu. apply H. eapply subs_list_in; eauto.
+Qed.
+
+(* ---------------------------------------------------------------- dicts *)
+Lemma norm_scalar W k : scalar_key k = true -> norm W k = k.
+Proof. destruct k; try discriminate; try reflexivity. destruct k; try discriminate; reflexivity. Qed.
+
+Lemma scalar_hashable W k : scalar_key k = true -> hashable W k = true.
+Proof. destruct k; try discriminate; reflexivity. Qed.
+
+Lemma eval_pairs_repr W E kv :
+  Forall (fun p => eval W E (repr W (fst p)) = Some (norm W (fst p))
+                   /\ eval W E (repr W (snd p)) = Some (norm W (snd p))) kv ->
+  eval_pairs W E (repr_pairs W kv) = Some (norm_pairs W kv).
+Proof.
+  induction 1 as [|[k x] r [Hk Hx] Hr IH]; [reflexivity|].
+  cbn [repr_pairs eval_pairs norm_pairs]. cbn [fst snd] in Hk, Hx.
+  cbn [eval_pairs repr_pairs norm_pairs] in IH. rewrite Hk, Hx, IH. reflexivity.
+Qed.
+
+Lemma norm_pairs_keys W kv :
+  forallb scalar_key (map fst kv) = true -> map fst (norm_pairs W kv) = map fst kv.
+Proof.
+  induction kv as [|[k x] r IH]; [reflexivity|]. cbn [map fst forallb norm_pairs].
+  intros H. apply andb_true_iff in H as [H1 H2]. cbn [norm_pairs] in IH.
+  rewrite norm_scalar by exact H1. rewrite IH by exact H2. reflexivity.
+Qed.
+
+Lemma dict_put_fresh k v d :
+  (forall k', In k' (map fst d) -> veq false k' k = false) -> dict_put k v d = d ++ [(k, v)].
+Proof.
+  induction d as [|[k' v'] r IH]; cbn; intros H; [reflexivity|].
+  rewrite (H k') by auto. rewrite IH by auto. reflexivity.
+Qed.
+
+Lemma dict_fold_distinct ps : forall acc,
+  keys_distinct (map fst acc ++ map fst ps) = true ->
+  fold_left (fun d p => dict_put (fst p) (snd p) d) ps acc = acc ++ ps.
+Proof.
+  induction ps as [|[k v] r IH]; intros acc H; cbn [fold_left]; [rewrite app_nil_r; reflexivity|].
+  cbn [fst snd].
+  assert (Hf : forall k', In k' (map fst acc) -> veq false k' k = false).
+  { clear IH. induction acc as [|[a b] acc IHa]; cbn; [tauto|].
+    cbn in H. apply andb_true_iff in H as [H1 H2].
+    intros k' [<-|Hin].
+    - apply negb_true_iff in H1.
+      destruct (veq false a k) eqn:E; [|reflexivity].
+      assert (X : existsb (fun k'0 => veq false a k'0) (map fst acc ++ k :: map fst r) = true).
+      { apply existsb_exists. exists k. split; [apply in_or_app; right; left; reflexivity|exact E]. }
+      cbn [map fst] in H1. congruence.
+    - apply IHa; assumption. }
+  rewrite dict_put_fresh by exact Hf.
+  rewrite IH.
+  - rewrite <- app_assoc. reflexivity.
+  - rewrite map_app. cbn [map fst]. rewrite <- app_assoc. exact H.
+Qed.
+
+Lemma dict_of_distinct ps : keys_distinct (map fst ps) = true -> dict_of ps = ps.
+Proof. intros H. unfold dict_of. rewrite dict_fold_distinct; [reflexivity|exact H]. Qed.
+
+(* ---------------------------------------------------------------- dataclass instances *)
+Definition normkw (W : world) : list fdesc -> list (str * value) -> list (str * value) :=
+  fix go (fds : list fdesc) (fs : list (str * value)) {struct fs} : list (str * value) :=
+    match fds, fs with
+    | fd :: fds', (_, x) :: fs' =>
+        if printed fd x then (f_name fd, norm W x) :: go fds' fs' else go fds' fs'
+    | _, _ => []
+    end.
+
+Lemma eval_kws_repr_fields W E : forall fs fds,
+  Forall (fun p => (forall u, In u (subs W (snd p)) -> ok1 W E u) ->
+                   eval W E (repr W (snd p)) = Some (norm W (snd p))) fs ->
+  (forall u, In u (subs_fields W fds fs) -> ok1 W E u) ->
+  eval_kws W E (repr_fields W fds fs) = Some (normkw W fds fs).
+Proof.
+  induction fs as [|[n x] fs IH]; intros fds HF Hok.
+  - destruct fds; reflexivity.
+  - destruct fds as [|fd fds]; [reflexivity|].
+    inversion HF as [|? ? Hx HF']; subst. cbn [snd] in Hx.
+    cbn [repr_fields normkw subs_fields] in *.
+    destruct (printed fd x).
+    + cbn [eval_kws]. rewrite Hx by (intros u Hu; apply Hok; apply in_or_app; left; exact Hu).
+      cbn [eval_kws] in IH. rewrite (IH fds HF') by (intros u Hu; apply Hok; apply in_or_app; right; exact Hu).
+      reflexivity.
+    + apply IH; assumption.
+Qed.
+
+Lemma normkw_names W : forall fs fds n, In n (map fst (normkw W fds fs)) -> In n (map f_name fds).
+Proof.
+  induction fs as [|[m x] fs IH]; intros fds n H.
+  - destruct fds; cbn in H; tauto.
+  - destruct fds as [|fd fds]; [cbn in H; tauto|]. cbn [normkw] in H.
+    destruct (printed fd x).
+    + cbn in H. destruct H as [<-|H]; [left; reflexivity|right; eapply IH; exact H].
+    + right. eapply IH; exact H.
+Qed.
+
+Fixpoint kw_agree (W : world) (kws : list (str * value)) (fds : list fdesc) (fs : list (str * value)) {struct fs} : Prop :=
+  match fds, fs with
+  | fd :: fds', (_, x) :: fs' =>
+      assoc (f_name fd) kws = (if printed fd x then Some (norm W x) else None) /\ kw_agree W kws fds' fs'
+  | _, _ => True
+  end.
+
+Lemma assoc_app_notin {A} n (a b : list (str * A)) : ~ In n (map fst a) -> assoc n (a ++ b) = assoc n b.
+Proof.
+  induction a as [|[k v] r IH]; cbn; [reflexivity|]. intros H.
+  destruct (str_eqb_spec k n) as [->|Hn]; [tauto|]. apply IH. tauto.
+Qed.
+
+Lemma kw_agree_normkw W : forall fs fds pre,
+  NoDup (map f_name fds) ->
+  (forall n, In n (map fst pre) -> ~ In n (map f_name fds)) ->
+  kw_agree W (pre ++ normkw W fds fs) fds fs.
+Proof.
+  induction fs as [|[m x] fs IH]; intros fds pre Hnd Hpre.
+  - destruct fds; exact I.
+  - destruct fds as [|fd fds]; [exact I|].
+    cbn [map] in Hnd. inversion Hnd as [|? ? Hnotin Hnd']; subst.
+    cbn [kw_agree normkw]. split.
+    + rewrite assoc_app_notin by (intros Hin; apply (Hpre _ Hin); left; reflexivity).
+      destruct (printed fd x).
+      * cbn [assoc]. rewrite str_eqb_refl. reflexivity.
+      * apply assoc_notin. intros Hin. apply Hnotin. eapply normkw_names; exact Hin.
+    + destruct (printed fd x).
+      * change (pre ++ (f_name fd, norm W x) :: normkw W fds fs)
+          with (pre ++ [(f_name fd, norm W x)] ++ normkw W fds fs).
+        rewrite app_assoc. apply IH; [exact Hnd'|].
+        intros n Hin. rewrite map_app in Hin. apply in_app_or in Hin as [Hin|Hin].
+        -- intros Hn. apply (Hpre _ Hin). right. exact Hn.
+        -- cbn in Hin. destruct Hin as [<-|[]]. exact Hnotin.
+      * apply IH; [exact Hnd'|]. intros n Hin Hn. apply (Hpre _ Hin). right. exact Hn.
+Qed.
+
+Lemma skip_default_some fd x : skip_default fd x = true -> exists d, default_of fd = Some d.
+Proof. unfold skip_default, default_of. destruct (f_default fd); [discriminate|eauto|eauto]. Qed.
+
+Lemma construct_ok W kws : forall fs fds,
+  length fds = length fs ->
+  kw_agree W kws fds fs ->
+  forallb (fun fd => f_init fd || match default_of fd with Some _ => true | None => false end) fds = true ->
+  construct fds kws = Some (norm_fields W fds fs).
+Proof.
+  induction fs as [|[m x] fs IH]; intros fds Hlen Hag Hdef.
+  - destruct fds; [reflexivity|discriminate Hlen].
+  - destruct fds as [|fd fds]; [discriminate Hlen|].
+    cbn [kw_agree] in Hag. destruct Hag as [Ha Hag].
+    cbn [forallb] in Hdef. apply andb_true_iff in Hdef as [Hd Hdef].
+    cbn [construct norm_fields]. cbn [norm_fields] in IH.
+    rewrite (IH fds) by (try assumption; cbn in Hlen; lia).
+    rewrite Ha. unfold printed in *.
+    destruct (f_init fd) eqn:Ei; cbn [andb] in *.
+    + destruct (skip_default fd x) eqn:Es; cbn [negb].
+      * destruct (skip_default_some _ _ Es) as [d Hdd]. rewrite Hdd. reflexivity.
+      * reflexivity.
+    + cbn [orb] in Hd. destruct (default_of fd); [reflexivity|discriminate Hd].
+Qed.
+
+Lemma kw_known_normkw W all : forall fs fds,
+  (forall fd, In fd fds -> In fd all) -> kw_known all (normkw W fds fs) = true.
+Proof.
+  induction fs as [|[m x] fs IH]; intros fds Hsub.
+  - destruct fds; reflexivity.
+  - destruct fds as [|fd fds]; [reflexivity|]. cbn [normkw].
+    assert (Hsub' : forall fd0, In fd0 fds -> In fd0 all) by (intros; apply Hsub; right; assumption).
+    destruct (printed fd x) eqn:Ep; [|apply IH; exact Hsub'].
+    unfold kw_known. cbn [forallb fst]. fold (kw_known all (normkw W fds fs)).
+    rewrite (IH fds Hsub'), andb_true_r.
+    apply existsb_exists. exists fd. split; [apply Hsub; left; reflexivity|].
+    unfold printed in Ep. apply andb_true_iff in Ep as [Ei _]. rewrite Ei, str_eqb_refl. reflexivity.
+Qed.
+
+Lemma normkw_nodup W : forall fs fds,
+  NoDup (map f_name fds) -> NoDup (map fst (normkw W fds fs)).
+Proof.
+  induction fs as [|[m x] fs IH]; intros fds Hnd.
+  - destruct fds; constructor.
+  - destruct fds as [|fd fds]; [constructor|]. cbn [map] in Hnd. inversion Hnd as [|? ? Hnotin Hnd']; subst.
+    cbn [normkw]. destruct (printed fd x); [|apply IH; exact Hnd'].
+    cbn [map fst]. constructor; [|apply IH; exact Hnd'].
+    intros Hin. apply Hnotin. eapply normkw_names; exact Hin.
+Qed.
+
+Lemma list_eqb_length {A} (e : A -> A -> bool) a : forall b, list_eqb e a b = true -> length a = length b.
+Proof.
+  induction a as [|x a IH]; intros [|y b]; cbn; try discriminate; [reflexivity|].
+  intros H. apply andb_true_iff in H as [_ H]. f_equal. apply IH. exact H.
+Qed.
+
+Lemma forallb_map_fst {A B} (f : A -> bool) (l : list (A * B)) :
+  forallb f (map fst l) = forallb (fun p => f (fst p)) l.
+Proof. induction l as [|p r IH]; cbn; [reflexivity|]. rewrite IH. reflexivity. Qed.
+
+(* ---------------------------------------------------------------- the first half *)
+Theorem eval_repr_norm W E :
+  builtins_free E ->
+  forall v, (forall u, In u (subs W v) -> ok1 W E u) -> eval W E (repr W v) = Some (norm W v).
+Proof.
+  intros HB. induction v using value_ind'; intros Hok.
+  - apply eval_scalar; [exact HB|assumption|apply Hok; apply subs_self].
+  - (* list *)
+    cbn [repr norm]. rewrite eval_EList, eval_list_repr; [reflexivity|].
+    apply Forall_forall. intros x Hx. rewrite Forall_forall in H. apply H; [exact Hx|].
+    intros u Hu. apply Hok. eapply subs_VList_in; eauto.
+  - (* tuple *)
+    cbn [repr norm]. destruct l as [|y l]; [reflexivity|].
+    rewrite eval_EList, eval_list_repr; [reflexivity|].
+    apply Forall_forall. intros x Hx. rewrite Forall_forall in H. apply H; [exact Hx|].
+    intros u Hu. apply Hok. eapply subs_VTuple_in; eauto.
+  - (* set *)
+    cbn [repr norm]. destruct l as [|y l].
+    + assert (HF : forall n, is_builtin n = true -> env_lookup E n = None) by exact HB.
+      rewrite eval_ECall. cbn [eval_list eval_kws].
+      destruct f; rewrite apply_call_builtin by (apply HF; reflexivity); reflexivity.
+    + rewrite eval_EList, eval_list_repr; [reflexivity|].
+      apply Forall_forall. intros x Hx. rewrite Forall_forall in H. apply H; [exact Hx|].
+      intros u Hu. apply Hok. eapply subs_VSet_in; eauto.
+  - (* dict *)
+    rewrite repr_VDict, norm_VDict, eval_EDict.
+    destruct (Hok (VDict kv) (subs_self _ _)) as (Hwf & _).
+    cbn [wf_local] in Hwf. apply andb_true_iff in Hwf as [Hsc Hdi].
+    rewrite eval_pairs_repr.
+    + assert (Hk : map fst (norm_pairs W kv) = map fst kv) by (apply norm_pairs_keys; exact Hsc).
+      assert (Hh : forallb (fun p => hashable W (fst p)) (norm_pairs W kv) = true).
+      { rewrite <- (forallb_map_fst (hashable W)). rewrite Hk.
+        apply forallb_forall. intros k Hkin. apply scalar_hashable.
+        rewrite forallb_forall in Hsc. apply Hsc. exact Hkin. }
+      rewrite Hh, dict_of_distinct by (rewrite Hk; exact Hdi). reflexivity.
+    + apply Forall_forall. intros [k x] Hin. rewrite Forall_forall in H.
+      destruct (H _ Hin) as [IHk IHx]. cbn [fst snd] in *. split.
+      * apply IHk. intros u Hu. apply Hok. rewrite subs_VDict. right. eapply subs_pairs_in; eauto.
+      * apply IHx. intros u Hu. apply Hok. rewrite subs_VDict. right. eapply subs_pairs_in; eauto.
+  - (* dataclass instance *)
+    destruct (Hok (VObj c fs) (subs_self _ _)) as (Hwf & _ & _ & Hres).
+    cbn [wf_local] in Hwf. rewrite repr_VObj, norm_VObj.
+    destruct (find_data W c) as [fds|] eqn:Ef; [|discriminate Hwf].
+    apply andb_true_iff in Hwf as [Hwf Hns]. apply andb_true_iff in Hwf as [Hwf Hq].
+    apply andb_true_iff in Hwf as [Hwf Hlib]. apply andb_true_iff in Hwf as [Hwf Hdefs].
+    apply andb_true_iff in Hwf as [Hnames Hnd0].
+    destruct c as [md q]. cbn [snd fst] in *. destruct q as [|n rest]; [discriminate Hq|].
+    unfold resolves in Hres. cbn [type_of hd snd fst] in Hres.
+    rewrite eval_ECall. cbn [eval_list].
+    rewrite (eval_kws_repr_fields W E fs fds).
+    + assert (Hlib' : lib_kind (md, n :: rest) = None)
+        by (destruct (lib_kind (md, n :: rest)); [discriminate Hlib|reflexivity]).
+      rewrite (apply_call_data W E n rest md fds _ Hres Hlib' Ef).
+      assert (Hnd : NoDup (map f_name fds)) by (apply names_nodup_NoDup; exact Hnd0).
+      rewrite kw_known_normkw by auto.
+      rewrite NoDup_names_nodup by (apply normkw_nodup; exact Hnd).
+      cbn [andb]. rewrite (construct_ok W _ fs fds).
+      * reflexivity.
+      * apply list_eqb_length in Hnames. rewrite !map_length in Hnames. symmetry. exact Hnames.
+      * apply (kw_agree_normkw W fs fds []); [exact Hnd|intros ? []].
+      * exact Hdefs.
+    + eapply Forall_impl; [|exact H]. intros p Hp. exact Hp.
+    + intros u Hu. apply Hok. rewrite subs_VObj, Ef. right. exact Hu.
+Qed.
+
+(* ---------------------------------------------------------------- the second half *)
+Definition ok2 (W : world) (u : value) : Prop :=
+  wf_local W u = true /\ g_array_local u = true /\ g_init_local W u = true.
+
+Lemma skip_default_veq fd x :
+  skip_default fd x = true -> exists d, default_of fd = Some d /\ veq false d x = true.
+Proof. unfold skip_default, default_of. destruct (f_default fd); [discriminate|eauto|eauto]. Qed.
+
+Lemma veq_norm_fields W : forall fs fds,
+  list_eqb str_eqb (map fst fs) (map f_name fds) = true ->
+  init_fields_ok fds fs = true ->
+  Forall (fun p => (forall u, In u (subs W (snd p)) -> ok2 W u) ->
+                   veq true (norm W (snd p)) (snd p) = true) fs ->
+  (forall u, In u (subs_fields W fds fs) -> ok2 W u) ->
+  veq_fields true (norm_fields W fds fs) fs = true.
+Proof.
+  induction fs as [|[m x] fs IH]; intros fds Hn Hi HF Hok.
+  - destruct fds; [reflexivity|discriminate Hn].
+  - destruct fds as [|fd fds]; [discriminate Hn|].
+    cbn [map fst list_eqb] in Hn. apply andb_true_iff in Hn as [Hm Hn]. apply str_eqb_true in Hm. subst m.
+    cbn [init_fields_ok] in Hi. apply andb_true_iff in Hi as [Hi0 Hi].
+    inversion HF as [|? ? Hx HF']; subst. cbn [snd] in Hx.
+    cbn [norm_fields veq_fields subs_fields] in *.
+    rewrite str_eqb_refl. cbn [andb].
+    destruct (printed fd x) eqn:Ep.
+    + rewrite Hx by (intros u Hu; apply Hok; apply in_or_app; left; exact Hu). cbn [andb].
+      apply IH; try assumption. intros u Hu. apply Hok. apply in_or_app. right. exact Hu.
+    + assert (Hv : veq true (match default_of fd with Some d => d | None => x end) x = true).
+      { unfold printed in Ep. destruct (f_init fd) eqn:Ei; cbn [andb] in Ep.
+        - apply negb_false_iff in Ep. destruct (skip_default_veq _ _ Ep) as [d [Hd Hv]].
+          rewrite Hd. apply veq_mono. exact Hv.
+        - destruct (default_of fd); [exact Hi0|discriminate Hi0]. }
+      rewrite Hv. cbn [andb]. apply IH; assumption.
+Qed.
+
+Lemma veq_norm_scalar W v : is_container v = false -> veq true (norm W v) v = true.
+Proof.
+  intros Hc. destruct v; try discriminate Hc; try (apply veq_refl_scalar; reflexivity).
+  cbn. apply str_eqb_refl.
+Qed.
+
+Lemma veq_list_norm W l :
+  Forall (fun x => veq true (norm W x) x = true) l -> veq_list true (map (norm W) l) l = true.
+Proof. induction 1 as [|x r Hx Hr IH]; cbn; [reflexivity|]. rewrite Hx. exact IH. Qed.
+
+Theorem veq_norm W :
+  forall v, (forall u, In u (subs W v) -> ok2 W u) -> veq true (norm W v) v = true.
+Proof.
+  induction v using value_ind'; intros Hok.
+  - apply veq_norm_scalar; assumption.
+  - cbn [norm]. rewrite veq_VList. apply veq_list_norm.
+    apply Forall_forall. intros x Hx. rewrite Forall_forall in H. apply H; [exact Hx|].
+    intros u Hu. apply Hok. eapply subs_VList_in; eauto.
+  - destruct (Hok (VTuple l) (subs_self _ _)) as (_ & Ha & _).
+    destruct l; [reflexivity|discriminate Ha].
+  - destruct (Hok (VSet f l) (subs_self _ _)) as (_ & Ha & _).
+    destruct l; [reflexivity|discriminate Ha].
+  - rewrite norm_VDict, veq_VDict.
+    assert (HF : Forall (fun p => veq true (norm W (fst p)) (fst p) = true
+                                 /\ veq true (norm W (snd p)) (snd p) = true) kv).
+    { apply Forall_forall. intros [k x] Hin. rewrite Forall_forall in H.
+      destruct (H _ Hin) as [IHk IHx]. cbn [fst snd] in *. split.
+      - apply IHk. intros u Hu. apply Hok. rewrite subs_VDict. right. eapply subs_pairs_in; eauto.
+      - apply IHx. intros u Hu. apply Hok. rewrite subs_VDict. right. eapply subs_pairs_in; eauto. }
+    clear H Hok. induction HF as [|[k x] r [Hk Hx] Hr IH]; [reflexivity|].
+    cbn [norm_pairs veq_pairs]. cbn [fst snd] in Hk, Hx. rewrite Hk, Hx. exact IH.
+  - destruct (Hok (VObj c fs) (subs_self _ _)) as (Hwf & _ & Hi).
+    cbn [wf_local] in Hwf. rewrite g_init_local_VObj in Hi. rewrite norm_VObj.
+    destruct (find_data W c) as [fds|] eqn:Ef; [|discriminate Hwf].
+    apply andb_true_iff in Hwf as [Hwf _]. apply andb_true_iff in Hwf as [Hwf _].
+    apply andb_true_iff in Hwf as [Hwf _]. apply andb_true_iff in Hwf as [Hwf _].
+    apply andb_true_iff in Hwf as [Hnames _].
+    rewrite veq_VObj, cref_eqb_refl. cbn [andb].
+    apply veq_norm_fields; try assumption.
+    intros u Hu. apply Hok. rewrite subs_VObj, Ef. right. exact Hu.
+Qed.
